@@ -29,13 +29,13 @@ MAX_TIMEOUTS = {"quick": 1, "thorough": 20}
 REQUIRED = {"supplied_atoms_checked": 2000, "centre_only_residues": 100, "generated_residues": 300,
             "prefix_runs": 20, "build_res_runs": 15, "ignore_runs": 25, "failed_attempts_seen": 40,
             "supplied_checks_after_removal": 200, "ignore_positions": 3,
-            "meta_build_res_runs": 8, "injected_step_schedules": 30, "atoms_and_centres_runs": 20,
+            "meta_build_res_runs": 8, "injected_step_schedules": 30, "atoms_and_centres_runs": 20, "ligand_runs_with_supplied_hosts": 30,
             "pdb_inputs_with_three_or_more_molecules": 10}
 
 
 def plan(tier, seed):
     n = 500 if tier == "quick" else 5000
-    return [["split", i] for i in range(n)] + [["ign", i] for i in range(n // 3)]
+    return [["split", i] for i in range(n)] + [["ign", i] for i in range(n // 3)] + [["lig", i] for i in range(n // 5)]
 
 
 def setup():
@@ -46,14 +46,40 @@ def run_case(cid, rng, workdir):
     res = new_result()
     if cid[0] == "ign":
         return run_ignore(cid, rng, workdir, res)
-    sysd = T.gen_system(rng, min_res=2)
-    text = T.render_top(sysd)
-    with open(os.path.join(workdir, "s.top"), "w") as fh:
-        fh.write(text)
-    kw, info = C03.make_options(rng, sysd, workdir, res, allow=("c_full", "c_prefix", "c_prefix", "c_res", "c_res", "mc", "mc_res", "c_mc"))
-    if kw is None:
-        res["status"] = "rejected"
-        return res
+    if cid[0] == "lig":
+        # hosts with supplied atoms or centres, ligands (-lig) without coordinates: the only residues to generate are the
+        # ligands; the residue a ligand is attached to keeps what was supplied for it
+        sysd = T.gen_system(rng, max_types=1, min_res=3, max_res=6, max_count=1, shapes=("lin", "lin", "tree"))
+        host = sysd["moltypes"][0]
+        nh = rng.randint(1, 3)
+        tn = sorted(sysd["atypes"])[0]
+        sysd["residues"]["LIG"] = {"name": "LIG", "kind": "single", "atoms": [{"name": "L0", "atype": tn, "charge": 0.0, "mass": None}],
+                                   "bonds": [], "angles": [], "vs": []}
+        sysd["moltypes"].append({"name": "LG", "res": ["LIG"], "edges": [], "links": [], "shape": "lin", "resids": [1]})
+        sysd["molecules"] = [(host["name"], nh), ("LG", nh)]
+        text = T.render_top(sysd)
+        with open(os.path.join(workdir, "s.top"), "w") as fh:
+            fh.write(text)
+        kw, info = C03.make_options(rng, sysd, workdir, res, allow=("c_prefix", "mc"), prefix_groups=nh * len(host["res"]))
+        if kw is None:
+            res["status"] = "rejected"
+            return res
+        kw["ligands"] = []
+        for h in range(nh):
+            ri = rng.randrange(len(host["res"]))
+            kw["ligands"].append(["%s#%d-%s#%d" % (host["name"], h, T.shown(sysd, host["res"][ri]), host["resids"][ri]),
+                                  "LG#%d" % (nh + h)])
+        kw.pop("box", None)
+        bump(res, "ligand_runs_with_supplied_hosts")
+    else:
+        sysd = T.gen_system(rng, min_res=2)
+        text = T.render_top(sysd)
+        with open(os.path.join(workdir, "s.top"), "w") as fh:
+            fh.write(text)
+        kw, info = C03.make_options(rng, sysd, workdir, res, allow=("c_full", "c_prefix", "c_prefix", "c_res", "c_res", "mc", "mc_res", "c_mc"))
+        if kw is None:
+            res["status"] = "rejected"
+            return res
     ctx_kw = {}
     c = rng.random()
     if c < 0.4:
@@ -120,6 +146,12 @@ def run_case(cid, rng, workdir):
     if topo is not None:
         placed_res = set()
         for mi, nd in placed:
+            if nd not in topo.molecules[mi].nodes and "ligands" in kw:
+                # a ligand residue is built as a temporary residue of its host and handed back afterwards:
+                # host h carries ligand molecule (number of hosts + h)
+                placed_res.add((len(kw["ligands"]) + mi, 0))
+                bump(res, "ligand_residues_placed")
+                continue
             placed_res.add((mi, topo.molecules[mi].nodes[nd]["resid"] - 1))
         extra = placed_res - missing
         lack = missing - placed_res
